@@ -33,6 +33,11 @@ LIB = {
     "crossh": ([("hook", "h"), ("hook", "g")], "{h}(); \"x\"; {g}();"),
     "none": ([], "\"k\"; n = [n + 1];"),
     "trywait": ([("match", "p"), ("out", "o")], "try {{ {o} += {p}; }} catch (outofspace) {{ wait \"\\n\"; }}"),
+    # a match argument referenced more than once in one expansion, with actions after the references (each reference is its own match)
+    "one": ([("out", "o"), ("match", "p")], "{p}; {o} = [{o} + 1];"),
+    "twice": ([("match", "p"), ("out", "a"), ("out", "b")], "{p}; {a} = [{a} + 1]; \",\"; {p}; {b} = [{b} + 2]; h(); \";\";"),
+    "fwd2": ([("match", "p"), ("out", "a"), ("out", "b")], "@one({a}, {p}); \",\"; @one({b}, {p}); g(); \";\";"),
+    "pair": ([("match", "p")], "@one(n, ({p} \"!\"));"),
     "casey": ([("match", "p"), ("match", "q"), ("hook", "hk")], "case {{ {p} -> {{ {hk}(); }} {q} -> {{ n = [7]; }} else -> {{ }} }}"),
 }
 
@@ -58,16 +63,25 @@ def expand(name, args, depth=0):
     for (kind, p), a in zip(params, args):
         env[p] = subst_expr(a) if kind == "expr" else a
     text = body.format(**env)
-    # nested macro calls
-    def repl(m):
-        inner = m.group(1)
-        inner_args = split_args(m.group(2))
-        return expand(inner, inner_args, depth + 1)
+    # nested macro calls (arguments may nest parentheses to any depth)
     while "@" in text:
-        text2 = re.sub(r"@(\w+)\(([^()]*(?:\([^()]*\)[^()]*)*)\);", repl, text, count=1)
-        if text2 == text:
+        i = text.index("@")
+        m = re.match(r"@(\w+)\(", text[i:])
+        if not m:
             break
-        text = text2
+        j = i + m.end()
+        d, instr = 1, False
+        while j < len(text) and d:
+            ch = text[j]
+            if ch == '"':
+                instr = not instr
+            elif not instr:
+                d += ch == "("
+                d -= ch == ")"
+            j += 1
+        if d or text[j:j + 1] != ";":
+            break
+        text = text[:i] + expand(m.group(1), split_args(text[i + m.end():j - 1]), depth + 1) + text[j + 1:]
     return text
 
 
@@ -113,8 +127,10 @@ def needed(name, args, acc):
         if k == "macro":
             # the nested macro is called with fixed argument shapes; its own macro-kind params are not supported
             acc.add(a)
-    if name == "same":
-        acc.add("num")
+    _, body = LIB[name]
+    for inner in re.findall(r"@(\w+)\(", body):
+        if inner in LIB and inner not in acc:
+            needed(inner, [None] * len(LIB[inner][0]), acc)
     return acc
 
 
@@ -165,6 +181,12 @@ def twins(n, seed=0):
         [("same", ["m", '"ab"'])],
         [("codes", ["G", "Z"])],
         [("casey", ['"ab"', '/c+d/', "g"]), ("opt", ['"q"'])],
+        [("twice", ['/\\d/', "n", "m"])],
+        [("twice", ['"x"', "m", "n"]), ("one", ["n", '"y"'])],
+        [("fwd2", ['"x"', "n", "m"])],
+        [("fwd2", ['/[ab]c/', "m", "n"])],
+        [("pair", ['"a"']), ("pair", ['"b"'])],
+        [("pair", ['/c+/']), ("two", ["m", "n"]), ("pair", ['"d"'])],
     ]
     seqs = list(fixed)
     for _ in range(max(0, n - len(fixed))):
